@@ -612,6 +612,7 @@ def run_history(sc: dict, wall_limit: float = 30.0) -> dict:
             op = runner.Operator(c, sim.registry, sim.settings(), identity="op", **opkw)
             sim.ops["op"] = op
             holder_op["op"] = op
+            tasks_before = set(asyncio.all_tasks())
             await op.start()
             assert op.task is not None and op.stop_flag is not None
 
@@ -681,6 +682,19 @@ def run_history(sc: dict, wall_limit: float = 30.0) -> dict:
                     op.kill()
                     rec.add("abandoned")
                     await asyncio.sleep(1.0)
+            # tasks of the operator that outlived operator() (a zombie operator: findings C20-F10/F11): sweep them here, in
+            # virtual time — the loop's own teardown would wait for them in real time
+            me = asyncio.current_task()
+            for _round in range(6):
+                zombies = [x for x in asyncio.all_tasks() if x is not me and x not in tasks_before and not x.done()]
+                if not zombies:
+                    break
+                if _round == 0:
+                    rec.add("zombies", len(zombies), sorted({classify_actor(x.get_name()) for x in zombies})[:12])
+                    op.stop_flag.set()
+                for x in zombies:
+                    x.cancel()
+                await asyncio.sleep(8.0)
         out["returned"] = st["returned"]
 
     err = None
